@@ -315,7 +315,10 @@ class Plane:
                 seg_tilt = np.einsum('ij,i->j', ptt_vector[3 * seg + 1:3 * seg + 3], t[seg, 1:3])
                 opd_no_tilt[seg] = (plane.opd - seg_tilt.reshape(plane.opd.shape)) * self.mask[seg]
 
-            plane.opd = np.sum(opd_no_tilt, axis=0)
+            # a sample that belongs to several segment masks (shared edge samples of
+            # closely packed, antialiased segments) must not be counted several times
+            nseg = np.sum(self.mask != 0, axis=0)
+            plane.opd = np.sum(opd_no_tilt, axis=0) / np.maximum(nseg, 1)
             plane.tilt.extend([Tilt(x=t[seg, 1], y=t[seg, 2]) for seg in range(self.size)])
 
         return plane
